@@ -110,11 +110,11 @@ def run(tier):
         rep.fn(key)
         try:
             paths = pl.extract(prog, key, [profiles.self_ref("Nickname"), Str(("input",))])
-            clos = sorted({e[3] for p in paths if isinstance(p[0], tuple) for e in p[0] if e[0] == "stabilize"})
+            clos = sorted({(e[3], e[4] if len(e) > 4 else None) for p in paths if isinstance(p[0], tuple) for e in p[0] if e[0] == "stabilize"}, key=repr)
             direct = [p for p in paths if isinstance(p[0], tuple) and p[1][0] == "Ok" and not any(e[0] == "stabilize" for e in p[0])]
-            rep.ob("fixed-point-return", "Nickname::enforce returns only stabilize's result", not direct and len(clos) == 1, "Ok paths bypassing stabilize: %d; closures: %s" % (len(direct), clos), b.where())
-            for c in clos:
-                cp = profiles.closure_pipeline(prog, rep, c, "Nickname", "validated-before-return", "Nickname closure")
+            rep.ob("fixed-point-return", "Nickname::enforce returns only stabilize's result", not direct and len(clos) == 1, "Ok paths bypassing stabilize: %d; closures: %s" % (len(direct), [c for c, _ in clos]), b.where())
+            for c, caps in clos:
+                cp = profiles.closure_pipeline(prog, rep, c, "Nickname", "validated-before-return", "Nickname closure", caps)
                 if cp is not None:
                     n += 1
                     check_profile(prog, rep, "Nickname", cp, "Nickname rules (each round)")
@@ -123,6 +123,11 @@ def run(tier):
     else:
         rep.ob("validated-before-return", "Nickname", False, "enforce not found")
     rep.floor("enforce pipelines analysed", n, 4)
+    # the whitelisted post-validation transforms must be the functions the profiles specify: a wrapper that
+    # normalises to another form, or a mapping rule that is not per-character, changes what can come out
+    profiles.normalizer_shape(prog, rep, "normalization_form_nfc", "nfc")
+    profiles.normalizer_shape(prog, rep, "normalization_form_nfkc", "nfkc")
+    profiles.include_leaves(rep, [("C13", "fixed point returned by stabilize"), ("C10", "case mapping"), ("C11", "width mapping"), ("C12", "space rules")])
     rep.not_decided += [
         "whether char::to_lowercase / NFC / NFKC (library Unicode data) can map a 6.3.0-valid character to a DISALLOWED or UNASSIGNED one",
         "idempotence of width→case→NFC→… on every string (library data)",
